@@ -54,14 +54,17 @@ const (
 	kFuncAB              // K7 via builder methods
 	kFuncMix             // Result-style prep/post, Any-style exec, via builder
 	kEmbedBuilder        // user struct embedding *NodeBuilder and overriding Prep (calls the embedded Prep, then decorates the value)
+	kBaseZero            // K1 on a BaseNode that did not come from NewBaseNode: &flyt.BaseNode{} with the options applied to it
 	numKinds
 )
 
-var kindNames = [...]string{"BaseEmbed", "BaseEmbed+Fallback", "Bare", "Bare+Retry", "Bare+Fallback", "FuncResult(opts)", "FuncAny(opts)", "FuncResult(builder)", "FuncAny(builder)", "FuncMixed(builder)", "Embed(NodeBuilder)+PrepOverride"}
+var kindNames = [...]string{"BaseEmbed", "BaseEmbed+Fallback", "Bare", "Bare+Retry", "Bare+Fallback", "FuncResult(opts)", "FuncAny(opts)", "FuncResult(builder)", "FuncAny(builder)", "FuncMixed(builder)", "Embed(NodeBuilder)+PrepOverride", "BaseEmbed(zero-value BaseNode)"}
 
 func kindExposesRetry(k int) bool { return k != kBare && k != kBareFb }
-func kindCanFallback(k int) bool  { return k != kBase && k != kBare && k != kBareRetry }
-func kindIsFunc(k int) bool       { return k >= kFuncR }
+func kindCanFallback(k int) bool {
+	return k != kBase && k != kBare && k != kBareRetry && k != kBaseZero
+}
+func kindIsFunc(k int) bool { return k >= kFuncR && k != kBaseZero }
 
 // spec describes a node or a flow of the scenario.
 type spec struct {
@@ -71,6 +74,9 @@ type spec struct {
 	fb   bool          // a user fallback is configured
 	wait time.Duration // configured retry wait
 	flow *flowSpec
+	// replaced: every callback of a function-style node is first set to a decoy of the OTHER
+	// style and then replaced by the real one (the last setting of a phase wins)
+	replaced bool
 }
 
 type flowSpec struct {
@@ -382,6 +388,7 @@ type H struct {
 	preCall        func(h *H, c call)             // runs before the reference comparison
 	allowDeviation func(h *H, exp, got call) bool // a callback that differs from the reference but is permitted: stop comparing
 	nodes          map[*spec]flyt.Node
+	cancelFail     error    // the error of the callback that cancelled the context and failed (errCancelThenFail)
 	topDown        bool     // wiring order of nested flows (see build)
 	buildDepth     int      // nesting of flow builds in progress
 	deferredWiring []func() // connections of inner flows still to be made (top-down wiring)
@@ -449,6 +456,16 @@ func (h *H) on(c call) answer {
 	}
 	m := h.menu(h, c)
 	a := m[core.Choose(len(m))]
+	if a.err == errCancelThenFail {
+		// the callback gives up because "its" context is gone: it cancels the run's context and
+		// returns its own error value wrapping ctx.Err()
+		if cc, ok := h.ctx.(*core.Ctx); ok {
+			cc.CancelInline(context.Canceled)
+		}
+		a.err = &wrapErr{tag: "operation abandoned", inner: h.ctx.Err()}
+		h.cancelFail = a.err
+		core.Logf("callback cancels the context and fails with %v", a.err)
+	}
 	h.answers = append(h.answers, a)
 	if h.ref != nil && !h.diverged {
 		h.ref.feed(a)
@@ -547,6 +564,10 @@ func checkErrMatch(got, injected error) {
 		}
 	}
 }
+
+// errCancelThenFail in a menu stands for "cancel the run's context, then fail with an own error
+// value that wraps ctx.Err()" (resolved in H.on at the moment of the call).
+var errCancelThenFail = errors.New("<cancel, then fail with an error wrapping ctx.Err()>")
 
 type customErr struct{ tag string }
 
@@ -705,6 +726,12 @@ func (h *H) build(s *spec) flyt.Node {
 	switch s.kind {
 	case kBase:
 		n = &baseKind{BaseNode: flyt.NewBaseNode(opts...), h: h, s: s}
+	case kBaseZero:
+		bn := &flyt.BaseNode{}
+		for _, o := range opts {
+			o(bn)
+		}
+		n = &baseKind{BaseNode: bn, h: h, s: s}
 	case kBaseFb:
 		n = &baseFbKind{baseKind{BaseNode: flyt.NewBaseNode(opts...), h: h, s: s}}
 	case kBare:
@@ -817,11 +844,40 @@ func (h *H) buildFunc(s *spec) flyt.Node {
 		a := h.on(call{node: s, ph: pFallback, prepVal: p, err: err})
 		return a.val, a.err
 	}
+	decoy := func(what string) {
+		core.Problem("%s: the %s callback that had been REPLACED before the run was invoked", s.id, what)
+	}
+	dPrepR := func(context.Context, *flyt.SharedStore) (flyt.Result, error) {
+		decoy("prep")
+		return flyt.Result{}, nil
+	}
+	dPrepA := func(context.Context, *flyt.SharedStore) (any, error) { decoy("prep"); return nil, nil }
+	dExecR := func(context.Context, flyt.Result) (flyt.Result, error) { decoy("exec"); return flyt.Result{}, nil }
+	dExecA := func(context.Context, any) (any, error) { decoy("exec"); return nil, nil }
+	dPostR := func(context.Context, *flyt.SharedStore, flyt.Result, flyt.Result) (flyt.Action, error) {
+		decoy("post")
+		return "decoy", nil
+	}
+	dPostA := func(context.Context, *flyt.SharedStore, any, any) (flyt.Action, error) {
+		decoy("post")
+		return "decoy", nil
+	}
+	dFb := func(any, error) (any, error) { decoy("fallback"); return nil, nil }
 	switch s.kind {
 	case kFuncR, kFuncA:
 		o := []any{flyt.WithMaxRetries(s.n)}
 		if s.wait > 0 {
 			o = append(o, flyt.WithWait(s.wait))
+		}
+		if s.replaced {
+			if s.kind == kFuncR {
+				o = append(o, flyt.WithPrepFuncAny(dPrepA), flyt.WithExecFuncAny(dExecA), flyt.WithPostFuncAny(dPostA))
+			} else {
+				o = append(o, flyt.WithPrepFunc(dPrepR), flyt.WithExecFunc(dExecR), flyt.WithPostFunc(dPostR))
+			}
+			if s.fb {
+				o = append(o, flyt.WithExecFallbackFunc(dFb))
+			}
 		}
 		if s.kind == kFuncR {
 			o = append(o, flyt.WithPrepFunc(prepR), flyt.WithExecFunc(execR), flyt.WithPostFunc(postR))
@@ -836,6 +892,19 @@ func (h *H) buildFunc(s *spec) flyt.Node {
 		b := flyt.NewNode().WithMaxRetries(s.n)
 		if s.wait > 0 {
 			b = b.WithWait(s.wait)
+		}
+		if s.replaced {
+			switch s.kind {
+			case kFuncRB:
+				b = b.WithPrepFuncAny(dPrepA).WithExecFuncAny(dExecA).WithPostFuncAny(dPostA)
+			case kFuncAB:
+				b = b.WithPrepFunc(dPrepR).WithExecFunc(dExecR).WithPostFunc(dPostR)
+			default:
+				b = b.WithPrepFuncAny(dPrepA).WithExecFunc(dExecR).WithPostFuncAny(dPostA)
+			}
+			if s.fb {
+				b = b.WithExecFallbackFunc(dFb)
+			}
 		}
 		switch s.kind {
 		case kFuncRB:
